@@ -210,7 +210,8 @@ where
     let server_addr = format!("{}:{}", config.host, config.port).to_socket_addrs()?.next().ok_or(anyhow!("server address is not available"))?;
     let context = new_context(config)?;
     // client->local|inbound, local->client|inbound
-    let (mut client_local, mut local_client) = UdpFramed::new(inbound, Socks5UdpCodec).split();
+    let inbound = Arc::new(inbound);
+    let mut local_client = UdpFramed::new(inbound.clone(), Socks5UdpCodec);
     let ttl = Duration::from_secs(600);
     let mut client_server_cache = LruCache::with_expiry_duration_and_capacity(ttl, 64);
     let (client_local_tx, mut client_local_rx) = mpsc::channel(1024);
@@ -224,7 +225,18 @@ where
             // client->local|mpsc
             Some((item, key)) = client_local_rx.recv() => {
                 client_server_cache.get(&key);
-                client_local.send(item).await.unwrap_or_else(|e| error!("[udp] failed to send inbound msg; error={}", e));
+                // every reply is sent on its own: one that the local socket refuses (too long with its header) is dropped
+                // and does not stay in a write buffer in front of all later replies
+                let (packet, recipient) = item;
+                let mut datagram = BytesMut::new();
+                match Socks5UdpCodec.encode(packet, &mut datagram) {
+                    Ok(_) => {
+                        if let Err(e) = inbound.send_to(&datagram, recipient).await {
+                            error!("[udp] failed to send inbound msg; error={}", e);
+                        }
+                    }
+                    Err(e) => error!("[udp] failed to encode inbound msg; error={}", e),
+                }
             }
             // local->client|inbound
             Some(next) = local_client.next() => {
